@@ -38,13 +38,13 @@ def parseDists (s : String) : Option (List ((Nat × List Nat) × Option Nat)) :=
       pure ((sc, q), d)
     | _ => none
 
-/-- an entry whose decision sits within 64 ulps of the boundary -/
+/-- an entry whose decision sits within 256 ulps of the boundary -/
 def nearBoundary (c : QCache) (dists : List ((Nat × List Nat) × Option Nat)) : Bool :=
   c.entries.any fun e =>
     match dists.find? (·.1 == (e.key.1, e.q)), QCache.worstKey e.res with
     | some (_, some d), some w =>
       let k := QCache.f32Key d
-      (if k ≥ w then k - w else w - k) ≤ 64 && e.res.length ≥ e.reqK
+      (if k ≥ w then k - w else w - k) ≤ 256 && e.res.length ≥ e.reqK
     | _, _ => false
 
 def step (st : Option QCache) (line : String) : Option QCache × String :=
